@@ -112,10 +112,13 @@ class LawWorld(World):
         unit = 1.0 if rng.random() < 0.75 else 1e9
         for k, (lo, hi) in SCALARS[kind].items():
             p[k] = float(np.round(rng.uniform(lo, hi), 4)) * (unit if not k.startswith("v") else 1.0)
+        # material axes of a 2D law may point out of the plane (fibres inclined through the thickness): a third of the 2D
+        # laws get a general 3D pair
+        adim = 3 if (dim == 2 and rng.random() < 0.33) else dim
         if kind == "TransverselyIsotropic":
-            p["axis_l"], p["axis_t"] = _axes(rng, dim)
+            p["axis_l"], p["axis_t"] = _axes(rng, adim)
         elif kind == "Orthotropic":
-            p["axis_1"], p["axis_2"] = _axes(rng, dim)
+            p["axis_1"], p["axis_2"] = _axes(rng, adim)
         elif kind == "Anisotropic":
             n = 3 if dim == 2 else 6
             p["C"] = (np.round(_spd(rng, n), 6) * unit).tolist()
@@ -267,7 +270,7 @@ class LawWorld(World):
                 ctx.checked()
                 ctx.probe("plane_reduction_checked")
         axk = {"TransverselyIsotropic": ("axis_l", "axis_t"), "Orthotropic": ("axis_1", "axis_2")}.get(self.kind)
-        if axk and np.ndim(C) == 2:
+        if axk and np.ndim(C) == 2 and not (self.cfg["dim"] == 2 and (self.p[axk[0]][2] != 0 or self.p[axk[1]][2] != 0)):
             # the same constants with the material axes on the global ones give the material matrix; the law with axes
             # (a1, a2) must be that matrix rotated as a fourth-order tensor (dense numpy)
             try:
